@@ -981,14 +981,6 @@ def json_sites(docs, name="doc"):
     return out
 
 
-def region_json_null_array(docs):
-    for cls, keys in json_sites(docs).items():
-        for k, vals in keys.items():
-            if any(isinstance(v, list) for v in vals) and any(v is None for v in vals):
-                return f"{cls}.{k} is an array in one place and null in another"
-    return None
-
-
 def region_json_typed_string(docs):
     from xsdata.codegen.mappers.mixins import RawDocumentMapper
     from xsdata.models.enums import DataType
@@ -1001,7 +993,6 @@ def region_json_typed_string(docs):
 
 
 JSON_REGIONS = [
-    ("C13-json-null-for-array", region_json_null_array),
     ("C13-json-string-typed-by-lexical-form", region_json_typed_string),
 ]
 
@@ -1033,7 +1024,6 @@ WITNESS_XML = {
     "C13-field-order-greedy-merge": ["<r><x><b>1</b><c>1</c></x><x><v>1</v><b>1</b></x><x><v>1</v><c>1</c></x></r>"],
 }
 WITNESS_JSON = {
-    "C13-json-null-for-array": [{"a": [1]}, {"a": None}],
     "C13-json-string-typed-by-lexical-form": [{"a": "12"}],
 }
 HAND_OK_XML = [
@@ -1085,13 +1075,16 @@ def e2e_json_args(docs):
 
 def clean_json_docs(rng, hetero=0.0):
     m = S.gen_json_model(rng, hetero=hetero)
-    docs = [S.json_instance(rng, m, null_arrays=hetero > 0) for _ in range(rng.randint(1, 4))]
+    docs = [S.json_instance(rng, m, null_arrays=True) for _ in range(rng.randint(1, 4))]
     # a sample document may also be an array of root objects (process_json_documents maps every item)
-    return [[d] + [S.json_instance(rng, m, null_arrays=hetero > 0) for _ in range(rng.randint(0, 2))] if rng.random() < 0.15 else d for d in docs]
+    return [[d] + [S.json_instance(rng, m, null_arrays=True) for _ in range(rng.randint(0, 2))] if rng.random() < 0.15 else d for d in docs]
 
 
 def gen_e2e_json(rng, tier):
     yield e2e_json_args([{"a": 1, "b": "x", "c": None, "d": [], "e": [1, 2], "f": {"g": True}, "h": [{"i": 1.5}, {"i": None, "j": "k"}]}])
+    yield e2e_json_args([{"a": [1]}, {"a": None}])  # null for a key that is an array elsewhere (fixed: c13d-01)
+    yield e2e_json_args([{"a": [{"b": 1}], "t": ["x"]}, {"a": None, "t": None}, {}])
+    yield e2e_json_args([[{"a": 1}, {"a": 2, "b": "x"}], {"a": 3}])  # a document that is an array of root objects
     for docs in WITNESS_JSON.values():
         yield e2e_json_args(docs)
     for i in range(n_cases(tier, 160, 2500)):
